@@ -320,6 +320,117 @@ class P:
 '''
 
 
+def ampm_tabulate(idx, cls, fn):
+    """tabulate the am/pm adjustment of the 'both endpoints carry am/pm' branch of parse_specific_time:
+    {(endpoint, 'am'|'pm'): {hour 1..12: resulting hour}} ; endpoint = 'begin' | 'end'"""
+    defs = {}
+    for n in ast.walk(fn):
+        if isinstance(n, ast.Assign) and len(n.targets) == 1 and isinstance(n.targets[0], ast.Name):
+            defs.setdefault(n.targets[0].id, []).append(n.value)
+    # (datetime local, hour local) pairs in source order: begin, end
+    pairs = []
+    for st in fn.body:
+        if isinstance(st, ast.Assign) and len(st.targets) == 1 and isinstance(st.targets[0], ast.Name) \
+                and isinstance(st.value, ast.Call) and _callee_name(st.value) == 'datetime':
+            hv = [k.value for k in st.value.keywords if k.arg == 'hour']
+            if not hv and len(st.value.args) >= 4:
+                hv = [st.value.args[3]]
+            if hv and isinstance(hv[0], ast.Name):
+                pairs.append((st.targets[0].id, hv[0].id))
+    if len(pairs) != 2:
+        raise AnalysisError('%s.%s: begin/end datetime construction not recognised (%s)' % (cls.name, fn.name, pairs))
+    # am / pm flags: locals defined as  <desc> != '' and <desc>.startswith('a' | 'p')
+    flags = {}
+    for name, vs in defs.items():
+        if len(vs) != 1:
+            continue
+        for c in ast.walk(vs[0]):
+            if isinstance(c, ast.Call) and _callee_name(c) == 'startswith' and c.args and isinstance(c.args[0], ast.Constant) \
+                    and c.args[0].value in ('a', 'p') and isinstance(c.func.value, ast.Name):
+                flags[name] = (c.func.value.id, 'am' if c.args[0].value == 'a' else 'pm')
+    descs = []
+    for name, (d, k) in flags.items():
+        if d not in descs:
+            descs.append(d)
+    if len(descs) != 2 or len(flags) != 4:
+        raise AnalysisError('%s.%s: am/pm flag locals not recognised (%s)' % (cls.name, fn.name, flags))
+    # order the description locals by first assignment: left, right
+    first_line = {}
+    for n in ast.walk(fn):
+        t = n.targets[0] if isinstance(n, ast.Assign) and len(n.targets) == 1 else (n.target if isinstance(n, ast.AnnAssign) else None)
+        if isinstance(t, ast.Name) and t.id in descs:
+            first_line[t.id] = min(first_line.get(t.id, n.lineno), n.lineno)
+    descs.sort(key=lambda d: first_line.get(d, 0))
+    side = {descs[0]: 'begin', descs[1]: 'end'}
+    # combined flags  has_left = has_left_am or has_left_pm
+    combined = {}
+    for name, vs in defs.items():
+        if len(vs) == 1 and isinstance(vs[0], ast.BoolOp) and isinstance(vs[0].op, ast.Or) and all(isinstance(x, ast.Name) and x.id in flags for x in vs[0].values):
+            sides = {side[flags[x.id][0]] for x in vs[0].values}
+            if len(sides) == 1:
+                combined[name] = sides.pop()
+    branch = None
+    for st in fn.body:
+        if isinstance(st, ast.If) and isinstance(st.test, ast.BoolOp) and isinstance(st.test.op, ast.And) \
+                and all(isinstance(x, ast.Name) for x in st.test.values) \
+                and {combined.get(x.id) for x in st.test.values} == {'begin', 'end'}:
+            branch = st
+            break
+    if branch is None:
+        raise AnalysisError("%s.%s: the 'both time points carry am/pm' branch was not found" % (cls.name, fn.name))
+    out = {}
+    for which, (dtv, hv) in zip(('begin', 'end'), pairs):
+        for desig in ('am', 'pm'):
+            tab = {}
+            for h in range(1, 13):
+                env = {}
+                for (d2, h2) in pairs:
+                    env[d2] = _dt.datetime(2016, 11, 7, h, 0)
+                    env[h2] = h
+                for name, (d, k) in flags.items():
+                    env[name] = (k == desig)
+                for name in combined:
+                    env[name] = True
+                ev = MiniEval(idx, cls, lambda node: (_ for _ in ()).throw(Undetermined('attribute %s' % ast.unparse(node)[:40])))
+                try:
+                    ev.block(branch.body, env)
+                except Undetermined as e:
+                    raise AnalysisError('%s.%s: am/pm branch cannot be interpreted: %s' % (cls.name, fn.name, e))
+                v = env.get(dtv)
+                if not isinstance(v, _dt.datetime):
+                    raise AnalysisError('%s.%s: %s is not a datetime after the am/pm branch' % (cls.name, fn.name, dtv))
+                tab[h] = v.hour + (24 if v.date() > _dt.date(2016, 11, 7) else 0) - (24 if v.date() < _dt.date(2016, 11, 7) else 0)
+            out[(which, desig)] = tab
+    return out, branch.lineno
+
+
+def ampm_expected(desig, h):
+    if desig == 'am':
+        return 0 if h == 12 else h
+    return h if h == 12 else h + 12
+
+
+_AMPM_CONTROL = '''
+class P:
+    def parse_specific_time(self, source, reference):
+        begin_date_time = datetime(year, month, day, hour=begin_hour, minute=0)
+        end_date_time = datetime(year, month, day, hour=end_hour, minute=0)
+        has_left_am = left_desc != '' and left_desc.startswith('a')
+        has_left_pm = left_desc != '' and left_desc.startswith('p')
+        has_right_am = right_desc != '' and right_desc.startswith('a')
+        has_right_pm = right_desc != '' and right_desc.startswith('p')
+        has_left = has_left_am or has_left_pm
+        has_right = has_right_am or has_right_pm
+        if has_left and has_right:
+            if has_left_am:
+                if begin_hour > 12:
+                    begin_date_time -= timedelta(hours=12)
+            else:
+                if begin_hour < 12:
+                    begin_date_time += timedelta(hours=12)
+'''
+
+
 def reference_form(sp):
     t = "f\"P{('T' if self.is_less_than_day(self.config.unit_map[%s]) else '')}{num}{self.config.unit_map[%s][0]}\"" % (sp, sp)
     t = ast.unparse(ast.parse(t, mode='eval').body)
@@ -377,6 +488,8 @@ def run(chk):
     chk.rule('C10.assembly', 'copies of the TIMEX/seconds assembly have the reference normal form and agree', floor=4, control=True)
     chk.rule('C10.range-guard', 'the plain "N <unit>" parse path has no early return that depends on the magnitude of N in 1..5000',
              floor=7, control=True)
+    chk.rule('C10.ampm', "time ranges whose endpoints both carry am/pm: 12am -> 0, 1..11am unchanged, 1..11pm -> +12, 12pm unchanged (tabulated, both endpoints)",
+             floor=4, control=True)
     chk.rule('C10.timespan', 'luis_time_span / period unit count equal end - start; type->suffix table', floor=8, control=True)
     chk.assume('a culture is served by the unique DurationParserConfiguration subclass of its package')
 
@@ -616,6 +729,24 @@ def run_base(chk, idx, consts):
     ctl.mod = bd.mod
     cab = range_guard_cases(idx, bd, cfn, 'num', 'source_unit', cfirst, consts)
     chk.control('C10.range-guard', csrc == 'parser' and cab['W'] == [1001, 5000] and cab['D'] == [])
+
+    # ---- C10.ampm
+    tp = idx.cls(DT + 'base_timeperiod.BaseTimePeriodParser')
+    pst = tp.methods.get('parse_specific_time')
+    if pst is None:
+        raise AnalysisError('anchor vanished: BaseTimePeriodParser.parse_specific_time')
+    chk.consulted(tp.mod.path)
+    tabs, bl = ampm_tabulate(idx, tp, pst)
+    for (which, desig), tab in sorted(tabs.items()):
+        wrong = ['%d%s -> %02d:00 (expected %02d:00)' % (h, desig, v, ampm_expected(desig, h)) for h, v in sorted(tab.items())
+                 if v != ampm_expected(desig, h)]
+        chk.judge(not wrong, 'C10.ampm', tp.mod.path, 'BaseTimePeriodParser.parse_specific_time[%s point, %s]' % (which, desig),
+                  'hours 1..12 map correctly' if not wrong else '; '.join(wrong),
+                  "both endpoints carry am/pm: the %s point is adjusted wrongly: %s%s" % (
+                      which, '; '.join(wrong), " (e.g. 'from 9pm to 12am' / 'from 12am to 3am')" if desig == 'am' else ''), bl)
+    cfn = _FakeCls(ast.parse(_AMPM_CONTROL).body[0])
+    ctabs, _ = ampm_tabulate(idx, tp, cfn.methods['parse_specific_time'])
+    chk.control('C10.ampm', ctabs[('begin', 'am')][12] != 0)
 
     # ---- C10.timespan
     fu = idx.cls(DT + 'utilities.DateTimeFormatUtil')
